@@ -138,8 +138,9 @@ def run_tlc(module, cfg, *, tag, workers=16, extra=(), timeout=3600, env=None, u
              "generated": 0, "distinct": 0, "depth": 0, "coverage": {}, "zero_cov": [], "lines": 0}
     tmp_out = "%s.tmp.%d" % (out_path, os.getpid())       # concurrent checks may compute the same key
     log_path = os.path.join(work, "tlc.log")
-    proc = subprocess.Popen(cmd, stdout=subprocess.PIPE, stderr=subprocess.STDOUT, cwd=work, env=e, text=True,
-                            errors="replace")
+    # stderr goes to its own file: merged into stdout it can land in the middle of a PrintT line
+    errf = open(os.path.join(work, "tlc.stderr"), "w")
+    proc = subprocess.Popen(cmd, stdout=subprocess.PIPE, stderr=errf, cwd=work, env=e, text=True, errors="replace")
     err_mode = 0
     try:
         with gzip.open(tmp_out, "wt", compresslevel=1) as gz, open(log_path, "w") as log:
@@ -181,6 +182,7 @@ def run_tlc(module, cfg, *, tag, workers=16, extra=(), timeout=3600, env=None, u
     finally:
         if proc.poll() is None:
             proc.kill()
+        errf.close()
     stats["rc"] = rc
     stats["wall_s"] = round(time.time() - t0, 2)
     stats["cached"] = False
@@ -217,3 +219,20 @@ def iter_json_lines(path):
 def read_lines(path):
     with gzip.open(path, "rt") as f:
         return f.readlines()
+
+
+def run_vectors(module, cfg, tag, expected, timeout=7200):
+    """TLC run that emits one vector per transition; `expected(stats)` is the number of lines that must have been emitted.
+    A torn line (16 workers printing) is a machinery hiccup: run once more with one worker before giving up."""
+    stats = run_tlc(module, cfg, tag=tag, timeout=timeout)
+    require_ok(stats)
+    if stats["lines"] == expected(stats):
+        return stats
+    for f in (stats["lines_path"], os.path.join(CACHE, stats["key"] + ".json")):
+        if os.path.exists(f):
+            os.remove(f)
+    stats = run_tlc(module, cfg, tag=tag + "-w1", timeout=timeout, workers=1, use_cache=False)
+    require_ok(stats)
+    if stats["lines"] != expected(stats):
+        raise MachineryError("%s: %d vectors emitted for %d transitions" % (tag, stats["lines"], expected(stats)))
+    return stats
